@@ -687,7 +687,7 @@ func (w *Writer) AddIndex(r *Reader) (bool, error) {
 				}
 				w.hostGroups = append(w.hostGroups, hostGroup{
 					hostSize: rhg.hostSize,
-					hosts:    rhg.hosts,
+					hosts:    rhg.hosts[:len(rhg.hosts):len(rhg.hosts)],
 				})
 				remap.hostRemap = make([]uint16, 0, rhg.hostCount)
 				for h := 0; h < rhg.hostCount; h++ {
